@@ -47,6 +47,14 @@ var vIDNum = map[string]int{"id1": 1, "id2": 2, "id3": 3, "id4": 4, "id5": 5, "i
 type vUniverse struct{ ports []int }
 
 func (u vUniverse) cfgAddr(a int) string { // address as written in the configuration
+	switch a {
+	case 11: // host is not an IP
+		return fmt.Sprintf("localhost:%d", u.ports[0])
+	case 12: // no port
+		return "127.0.0.1"
+	case 13: // empty host
+		return fmt.Sprintf(":%d", u.ports[1])
+	}
 	return fmt.Sprintf("127.0.0.1:%d", u.ports[a-1])
 }
 func (u vUniverse) dialAddr(a int) string { return fmt.Sprintf("127.0.0.1:%d", u.ports[a-1]) }
